@@ -123,8 +123,9 @@ class Network:
         now = self.loop.time()
         kind, param = self.phase_at(now)
         for peer in self.peers:
-            if addr is not None and addr[0] not in ("<broadcast>", "255.255.255.255") and addr[0] != peer.addr[0]:
-                continue
+            if addr is not None and addr[0] not in ("<broadcast>", "255.255.255.255") and not addr[0].endswith(".255") \
+                    and addr[0] != peer.addr[0]:
+                continue            # (x.y.z.255: a subnet's directed broadcast reaches every peer)
             if hasattr(peer, "rferr"):
                 peer.rferr = kind == "rferr"
             for item in peer.on_datagram(data, transport.local):
